@@ -8,6 +8,7 @@ from ..core import Workload, CaseAbort
 from ..env import ptn
 
 SHADOW_TOL = 1e-9
+FILLS = [1, -2, 0.5, 1.0, complex(0.5, -1.0), 0, 0.0]
 MODELS = ['xxz', 'xxz1', 'bose3', 'fermi', 'ising']
 # operator charges for random U(1) chain lists on the spin-1/2 space with qd = [1, -1]
 SPIN_OPMAP = {0: np.identity(2), 1: np.array([[0., 1.], [0., 0.]]), -1: np.array([[0., 0.], [1., 0.]]), 2: np.diag([0.5, -0.5])}
@@ -268,13 +269,18 @@ class History:
                 ctx.close('step.orthonormalize-factor', abs(float(nrm) - np.linalg.norm(o.shadow)), 1e-9 * max(1, np.linalg.norm(o.shadow)), 'MPO factor != Frobenius norm', detail)
                 o.shadow = o.shadow / float(nrm) if nz and nrm > 0 else refs.dense_operator(o.obj.A)
         elif op == 'mpo-new':
-            which = str(rng.choice(['model', 'identity', 'opgraph']))
+            which = str(rng.choice(['model', 'identity', 'opgraph', 'fill']))
             if which == 'model' or (which == 'opgraph' and self.name != 'xxz'):
                 r = gen.model(self.name, self.L, gen.generic_params(rng))
                 herm = True
             elif which == 'identity':
                 r = ptn.MPO.identity(self.qd, self.L, dtype=complex if rng.random() < 0.5 else float)
                 herm = True
+            elif which == 'fill':
+                # the documented scalar-fill constructor (dummy boundary bonds with charge 0)
+                qD = gen.mpo_qD(rng, self.qd, self.L, 3, 'unsorted', (0, 0))
+                r = ptn.MPO(self.qd, qD, fill=FILLS[int(rng.integers(0, len(FILLS)))])
+                herm = False
             else:
                 chains = random_spin_chains(rng, self.L)
                 g = ptn.OpGraph.from_opchains(chains, self.L, 0)
@@ -308,6 +314,82 @@ def history_case(ctx, idx, rng):
     nz = any(o.kind == 'mps' and o.shadow is not None and np.linalg.norm(o.shadow) > 1e-12 for o in h.pool)
     ctx.case((h.name,) + tuple(h.hist), nontrivial=(len(h.hist) >= 3 and len(set(kinds)) >= 2 and nz),
              sample={'model': h.name, 'L': h.L, 'history': h.hist})
+
+
+def constructor_case(ctx, idx, rng):
+    """Every documented way of constructing an MPS / MPO (scalar fill of each numeric type, 'random' with and without a generator, default
+    fill, quantum numbers passed as arrays / lists / tuples), the invariant right after construction, then a short chain of public operations."""
+    from .c01 import _qd
+    is_mpo = bool(idx % 2)
+    L = int(rng.integers(1, 5))
+    d = int(rng.choice([1, 2, 3]))
+    layout = str(rng.choice(['zero', 'unsorted', 'sorted', 'pairs']))
+    qd = _qd(rng, d, layout)
+    if layout != 'zero' and d > 1 and not np.any(qd - qd[0]):
+        qd[0] = qd[0] + 1
+    qD = gen.mpo_qD(rng, qd, L, 3, 'unsorted', (0, 0)) if is_mpo else gen.mps_qD(rng, qd, L, str(rng.choice(['random', 'max', 'over'])), Dmax=4)
+    fillk = ('int', 'float', 'complex', 'zero', 'default', 'random', 'random-rng')[(idx // 2) % 7]
+    fill = {'int': int(rng.choice([1, -2, 3])), 'float': float(rng.choice([1.0, 0.5, -2.5])), 'complex': complex(rng.choice([0.5, 1.0]), rng.choice([-1.0, 2.0])),
+            'zero': 0, 'random': 'random', 'random-rng': 'random', 'default': None}[fillk]
+    form = ('array', 'list', 'tuple')[(idx // 14) % 3]
+    conv = {'array': lambda q: np.array(q), 'list': lambda q: [int(x) for x in q], 'tuple': lambda q: tuple(int(x) for x in q)}[form]
+    a_qd, a_qD = conv(qd), [conv(q) for q in qD]
+    cls = ptn.MPO if is_mpo else ptn.MPS
+    kw = {}
+    if fillk == 'random-rng':
+        kw['rng'] = np.random.default_rng(int(rng.integers(0, 2 ** 31)))
+    ctx.case(('ctor', 'mpo' if is_mpo else 'mps', f'L{L}', f'd{d}', layout, fillk, form), nontrivial=(fillk not in ('zero', 'default')),
+             sample={'qd': qd, 'qD': qD, 'fill': repr(fill), 'form': form})
+    detail = {'class': cls.__name__, 'qd': qd, 'qD': qD, 'fill': repr(fill), 'form': form}
+    if fillk == 'default':
+        obj = cls(a_qd, a_qD)
+    elif idx % 3 == 0:
+        obj = cls(a_qd, a_qD, fill, **kw)
+    else:
+        obj = cls(a_qd, a_qD, fill=fill, **kw)
+    inv = refs.mpo_invariant(obj) if is_mpo else refs.mps_invariant(obj)
+    if not ctx.ok('ctor.class-invariant', inv is None, f'{cls.__name__}(qd, qD, fill={fill!r}) violates the invariant right after construction: {inv}', detail):
+        return
+    ctx.ok('ctor.arguments-untouched', np.array_equal(np.asarray(a_qd), qd) and all(np.array_equal(np.asarray(x), y) for x, y in zip(a_qD, qD)), 'constructor modified qd / qD', detail)
+    if fillk in ('int', 'float', 'complex'):
+        ctx.ok('ctor.fill-reaches-allowed-entries', any(np.any(a != 0) for a in obj.A) or not _any_allowed(obj, is_mpo), 'non-zero scalar fill produced only zeros although allowed entries exist', detail)
+    # short chain of operations on the constructed object
+    dense0 = refs.dense_operator(obj.A) if is_mpo else refs.dense_state(obj.A)
+    steps = []
+    try:
+        for _ in range(int(rng.integers(1, 4))):
+            op = str(rng.choice(['orth-left', 'orth-right', 'add', 'sub', 'matmul' if is_mpo else 'compress']))
+            steps.append(op)
+            if op.startswith('orth'):
+                obj.orthonormalize(op[5:])
+            elif op == 'add':
+                obj = obj + obj
+            elif op == 'sub':
+                obj = obj - cls(obj.qd, obj.qD, fill='random', rng=np.random.default_rng(int(rng.integers(0, 2 ** 31))))     # same (current) bond labels
+            elif op == 'matmul':
+                if sum(obj.bond_dims) > 24:
+                    continue
+                obj = obj @ obj
+            elif op == 'compress':
+                if np.linalg.norm(refs.dense_state(obj.A)) > 1e-8 * tensor_scale(obj):
+                    obj.compress(0.0, str(rng.choice(['left', 'right'])))
+            inv = refs.mpo_invariant(obj) if is_mpo else refs.mps_invariant(obj)
+            if not ctx.ok('ctor.class-invariant-after-ops', inv is None, f'after {steps}: {inv}', dict(detail, steps=steps)):
+                return
+    except AssertionError as e:
+        import traceback
+        ctx.fail('ctor.no-internal-assertion', f'an internal assertion failed after {steps} on a freshly constructed object: {e}', dict(detail, steps=steps, traceback=traceback.format_exc(limit=6)))
+
+
+def _any_allowed(obj, is_mpo):
+    for i, a in enumerate(obj.A):
+        if is_mpo:
+            mask = np.add.outer(np.add.outer(np.add.outer(obj.qd, -obj.qd), obj.qD[i]), -obj.qD[i + 1])
+        else:
+            mask = np.add.outer(np.add.outer(obj.qd, obj.qD[i]), -obj.qD[i + 1])
+        if np.any(mask == 0):
+            return True
+    return False
 
 
 def soak_case(ctx, idx, rng):
@@ -357,12 +439,14 @@ SPEC = {
     'rule': ('histories: a pool of MPS/MPO objects of one model (XXZ, spin-1 XXZ, Bose-Hubbard d=3, Fermi-Hubbard with encoded charge pairs, Ising) '
              'is driven through 3..12 (quick) / 3..30 (thorough) random public operations: construct (random sector states, scalar fill, '
              'from_vector), orthonormalize, compress, +/-, apply_operator, split+merge of a tensor pair, one-/two-site TDVP, one-/two-site DMRG, '
-             'zero_qnumbers, MPO +/-/@, MPO orthonormalize, MPO constructors (models, identity, from_opgraph of random charged chain lists). '
+             'zero_qnumbers, MPO +/-/@, MPO orthonormalize, MPO constructors (models, identity, scalar fill, from_opgraph of random charged chain lists). '
+             'constructors: MPS / MPO built in every documented way (int / float / complex / zero / default fill, random with and without generator, quantum numbers as arrays / lists / tuples) followed by 1-3 operations. '
              'After every step the class invariant is evaluated on every live object and every object is compared with its shadow dense model. '
              'distinct = distinct operation sequences; non-trivial = >= 3 steps, >= 2 operation kinds, a non-zero state in the pool.'),
-    'deciding': ['history.class-invariant', 'history.shadow-model', 'history.total-charge-kept'],
+    'deciding': ['ctor.class-invariant', 'history.class-invariant', 'history.shadow-model', 'history.total-charge-kept'],
     'workloads': [
         Workload('histories', history_case, quick=600, thorough=36000),
+        Workload('constructors', constructor_case, quick=420, thorough=42000),
         Workload('suite-soak', soak_case, quick=0, thorough=1, shardable=False),
     ],
     'shards': {'quick': 4, 'thorough': 16},
